@@ -11,6 +11,7 @@ mod s_determ;
 mod s_engine;
 mod s_expr;
 mod s_limits;
+mod s_versions;
 
 use std::env;
 
@@ -32,6 +33,7 @@ fn main() {
         "limits" => s_limits::run(&opts),
         "chain" => s_chain::run(&opts),
         "chainpost" => s_chain::post(&opts),
+        "versions" => s_versions::run(&opts),
         other => {
             eprintln!("unknown stream {other}");
             std::process::exit(2);
